@@ -34,6 +34,8 @@ type LossyScenario struct {
 	// {PID, counter step in {dup,+1,gap}, PUSI, payload / adaptation-only / TEI /
 	// discontinuity_indicator}, judged against the reassembly reference.
 	Hdrs []HdrPkt `json:"hdrs,omitempty"`
+	// HdrEnum: member of the bounded-exhaustive family of header sequences (informational)
+	HdrEnum bool `json:"hdr_enum,omitempty"`
 	// muxer source (no Model): the stream is what the real Muxer writes for this history
 	Period int     `json:"period,omitempty"`
 	Ops    []MuxOp `json:"ops,omitempty"`
@@ -54,7 +56,7 @@ func (lossy) Runs(tier string) int64 {
 
 func (lossy) Meta() core.EngineMeta {
 	return core.EngineMeta{
-		Rule:       "Reference-multiplexed streams (as C02; some with PES payloads made of PES-start-code patterns at packet strides) go through the PacketChannel. A quarter of the runs are header sequences: seeded packet sequences over {PID, counter step in dup/+1/gap, PUSI, payload / adaptation-only / transport-error / discontinuity_indicator} with uniquely tagged payloads, judged against the spec-level reassembly reference (DESIGN App. B: must-deliver / may-be-missing / must-not-appear). Of the rest, even run indices enumerate EVERY single-packet duplication and EVERY single-packet deletion position of their stream (exhaustive per stream); odd indices apply a seeded multi-fault plan (loss bursts < 16 per PID, duplicates of first/middle/last packets, duplicates delayed behind other PIDs' packets, dup+loss). The fault-free run of the same stream is the baseline. evaluations = faulted executions; distinct = abstract fingerprint (fault kind, unit kind, position class first/middle/last/single, packets-per-unit class, cc-wrap, interleaved, outcome class); non-trivial = the fault hit a packet of a unit (always). A third of the streams carry PCRs on later packets of a unit too; duplicates may carry another PCR value than their original (the one difference ISO 13818-1 2.4.3.3 allows), and header-sequence packets (also those with discontinuity_indicator) may carry a PCR.",
+		Rule:       "Reference-multiplexed streams (as C02; some with PES payloads made of PES-start-code patterns at packet strides) go through the PacketChannel. A quarter of the runs are header sequences: half of them bounded-exhaustive (every sequence over a 34-letter alphabet of counter step x PUSI x packet kind plus an interleaved stranger, shortest first, behind a unit in progress: complete to length 1 in the quick tier, to length 2 and most of length 3 in the thorough tier), half seeded packet sequences over {PID, counter step in dup/+1/gap, PUSI, payload / adaptation-only / transport-error / discontinuity_indicator} with uniquely tagged payloads, judged against the spec-level reassembly reference (DESIGN App. B: must-deliver / may-be-missing / must-not-appear). Of the rest, even run indices enumerate EVERY single-packet duplication and EVERY single-packet deletion position of their stream (exhaustive per stream); odd indices apply a seeded multi-fault plan (loss bursts < 16 per PID, duplicates of first/middle/last packets, duplicates delayed behind other PIDs' packets, dup+loss). The fault-free run of the same stream is the baseline. evaluations = faulted executions; distinct = abstract fingerprint (fault kind, unit kind, position class first/middle/last/single, packets-per-unit class, cc-wrap, interleaved, outcome class); non-trivial = the fault hit a packet of a unit (always). A third of the streams carry PCRs on later packets of a unit too; duplicates may carry another PCR value than their original (the one difference ISO 13818-1 2.4.3.3 allows), and header-sequence packets (also those with discontinuity_indicator) may carry a PCR.",
 		Real:       []string{"astits.Demuxer and everything below it"},
 		Stub:       []string{"refts reference multiplexer", "PacketChannel (drop / duplicate)", "SimReader (fault-free)", "spec-level bookkeeping of which unit each packet belongs to"},
 		FaultKinds: []string{"muxer-source", "hdr-dup", "hdr-gap", "hdr-disc", "hdr-afonly", "hdr-tei", "hdr-orphan", "dup", "drop", "dup-delayed", "drop-burst", "dup-first", "dup-last", "dup-single-packet-unit", "drop-pusi", "biased-payload"},
@@ -75,6 +77,11 @@ func (lossy) Decode(raw json.RawMessage) (any, error) {
 
 func (lossy) Generate(r *core.PRNG, tier string, idx int64) any {
 	if idx%4 == 3 {
+		if idx%8 == 7 {
+			// bounded-exhaustive: every sequence over the header alphabet, shortest first, each
+			// placed behind a two-packet unit in progress
+			return &LossyScenario{Hdrs: enumHeaders(idx / 8), HdrEnum: true}
+		}
 		return &LossyScenario{Hdrs: genHeaders(r)}
 	}
 	if idx%8 == 1 {
@@ -260,6 +267,9 @@ func (lossy) Execute(scAny any, keepLog bool) *core.Outcome {
 	out := core.NewOutcome()
 	out.Log = core.NewLog(keepLog)
 	if sc.Model == nil && len(sc.Ops) == 0 {
+		if sc.HdrEnum {
+			out.Probe(fmt.Sprintf("hdr-enum-len-%d", len(sc.Hdrs)-5))
+		}
 		if len(sc.Hdrs) > 0 {
 			judgeHeaders(out, sc.Hdrs)
 		}
@@ -727,6 +737,47 @@ type HdrPkt struct {
 }
 
 var hdrPIDs = []uint16{0x100, 0x101, 0x1abc}
+
+// hdrAlphabet: counter step {+1, dup, gap 2, gap 15} x PUSI x {payload, afonly, tei, disc} on
+// PID 0, plus a plain packet of a second PID (an interleaved stranger).
+var hdrAlphabet = func() []HdrPkt {
+	var a []HdrPkt
+	for _, cc := range []HdrPkt{{CC: "+1"}, {CC: "dup"}, {CC: "gap", Gap: 2}, {CC: "gap", Gap: 15}} {
+		for _, pusi := range []bool{false, true} {
+			for _, k := range []string{"payload", "afonly", "tei", "disc"} {
+				h := cc
+				h.PUSI, h.Kind = pusi, k
+				a = append(a, h)
+			}
+		}
+	}
+	a = append(a, HdrPkt{S: 1, CC: "+1", Kind: "payload"}, HdrPkt{S: 1, CC: "+1", Kind: "payload", PUSI: true})
+	return a
+}()
+
+// enumHeaders returns the k-th sequence over hdrAlphabet (length 1 first), behind a prefix that
+// leaves a unit in progress and followed by a closing unit start.
+func enumHeaders(k int64) []HdrPkt {
+	n := int64(len(hdrAlphabet))
+	length := 1
+	for pow := n; k >= pow; pow *= n {
+		k -= pow
+		length++
+		if length > 6 {
+			break
+		}
+	}
+	out := []HdrPkt{{CC: "+1", Kind: "payload", PUSI: true}, {CC: "+1", Kind: "payload"}}
+	digits := make([]int, length)
+	for i := length - 1; i >= 0; i-- {
+		digits[i] = int(k % n)
+		k /= n
+	}
+	for _, d := range digits {
+		out = append(out, hdrAlphabet[d])
+	}
+	return append(out, HdrPkt{CC: "+1", Kind: "payload"}, HdrPkt{CC: "+1", Kind: "payload", PUSI: true}, HdrPkt{CC: "+1", Kind: "payload"})
+}
 
 func genHeaders(r *core.PRNG) []HdrPkt {
 	n := r.Range(4, 60)
